@@ -46,7 +46,7 @@ var perlLower = []string{`\d`, `\s`, `\w`}
 var perlUpper = []string{`\D`, `\S`, `\W`}
 var anchors = []string{`^`, `$`, `\b`, `\B`, `\A`, `\z`}
 var stressAtoms = []string{`"`, `\"`, `\\`, `\\"`, `\\\"`, `\x5c`, `\x22`, `\\\\`, `"a"`, `\\x`, `[\\"]`, `["]`, `[\\]`, `[^"]`, `[^\\]`, `\s`, `[\s!]`, `[^\s]`, `\S`, `[\s\S]`, `[ \t]`,
-	`^`, `$`, `.`, `.*`, `.+`, `^.`, `.$`, `(?:^|x)`, `(?:$|x)`, `(?:.|x)`, "\t", `\x01`, "é", "\ufffd", "a\ufffdb", `[\x{fffd}"]`, "a\u2028", `\x{e9}`, `\v`, `\x0b`, `[\x0b]`, `\x7f`, `[\x00-\x1f]`, `[^ -~]`, `'`, `\'`, ` `, `\ `, `[ ]`, `\/`, `/`, `\#`, `\@rx `, `" \\`, `\$_GET`, `\$HOME`, `\$1`, `\$\{x\}`, `$$`, `%`, `%"`, `%\\`, `%(?:x)`, `%[a]`, `%s`, `%d%%`}
+	`^`, `$`, `.`, `.*`, `.+`, `^.`, `.$`, `(?:^|x)`, `(?:$|x)`, `(?:.|x)`, "\t", `\x01`, "é", "\ufffd", "a\ufffdb", `[\x{fffd}"]`, `\t\n\f\r `, `x\t\n\f\r y`, "a\u2028", `\x{e9}`, `\v`, `\x0b`, `[\x0b]`, `\x7f`, `[\x00-\x1f]`, `[^ -~]`, `'`, `\'`, ` `, `\ `, `[ ]`, `\/`, `/`, `\#`, `\@rx `, `" \\`, `\$_GET`, `\$HOME`, `\$1`, `\$\{x\}`, `$$`, `%`, `%"`, `%\\`, `%(?:x)`, `%[a]`, `%s`, `%d%%`}
 var quantifiers = []string{"*", "+", "?", "{2}", "{1,3}", "{0,2}", "{2,}", "*?", "+?", "??", "{1,2}?"}
 var posixLower = []string{"[:digit:]", "[:space:]", "[:^digit:]", "[:punct:]"}
 var posix = []string{"[:alpha:]", "[:digit:]", "[:space:]", "[:^digit:]", "[:punct:]", "[:xdigit:]", "[:word:]"}
